@@ -89,6 +89,8 @@ class Explorer:
         self.allow_opaque = allow_opaque
         self.abstract_dicts = abstract_dicts
         self.deadline = deadline
+        from . import isolate as _iso
+        self.isolate = _iso.Snapshot()
         self.stats = Stats()
         self.assumptions = []
         self.truncated = False
@@ -341,6 +343,10 @@ class Explorer:
             self.solver = self._new_solver()
             for a in self.assumptions:
                 self.solver.add(a)
+            if self.isolate is not None:
+                # module-level state of the library under test is put back before every path (symx/isolate.py)
+                self.isolate.extend()
+                self.isolate.restore()
             prev, _CUR = _CUR, self
             outcome, value = None, None
             try:
